@@ -35,6 +35,10 @@ func (i *JsByte) UnmarshalJSON(b []byte) error {
 		return ErrInvalidByteJs
 	}
 
+	if b[0] != '"' || b[lb-1] != '"' {
+		return ErrInvalidByteJs
+	}
+
 	strBuf := string(b[1 : lb-1])
 	return i.FromString(strBuf)
 }
@@ -59,6 +63,9 @@ func (i *JsByte) FromString(strBuf string) error {
 		t, err := strconv.Atoi(strNums[j])
 		if err != nil {
 			return err
+		}
+		if t < 0 || t > 255 {
+			return ErrInvalidByteJs
 		}
 		(*i)[j] = byte(t)
 	}
